@@ -189,12 +189,20 @@ class Universe:
             raise HarnessError(f"unexpected callback traffic: {kind}")
         return state
 
-    def seed_request(self, url: str, names: List[str]) -> Dict[str, Any]:
+    def cap_request(self, url: str, body: Any) -> Dict[str, Any]:
+        """Viewer POSTs an LLSD body to any cap URL (same path as seed_request; 'upstream' is the forwarded body)."""
+        return self.seed_request(url, body)
+
+    def cap_response(self, request_state: Dict, body: Dict[str, Any]) -> Dict[str, Any]:
+        """Simulator answers 200 with an LLSD map (same path as seed_response)."""
+        return self.seed_response(request_state, body)
+
+    def seed_request(self, url: str, names: Any) -> Dict[str, Any]:
         """Viewer POSTs its cap-name list to ``url``. Returns what mitmproxy would forward upstream."""
         p = urllib.parse.urlsplit(url)
         port = p.port or (443 if p.scheme == "https" else 80)
         req = tutils.treq(host=p.hostname, port=port, scheme=p.scheme.encode(), authority=p.netloc.encode(),
-                          path=(p.path or "/").encode(), method=b"POST", content=llsd.format_xml(list(names)))
+                          path=(p.path or "/").encode(), method=b"POST", content=llsd.format_xml(dict(names) if isinstance(names, dict) else list(names)))
         f = tflow.tflow(req=req)
         self.flow_counter += 1
         f.id = f"c16-flow-{self.flow_counter}"
